@@ -14,13 +14,16 @@ Op lines (symbolic addresses `A`,`B`,…, `gov`; `-` = empty / none):
   begin <t>
   bulk <signer> <acct> <name> <base> <n> <type> <exp|->
   sweep <t> <limit>
+  regen <t>
   dump
 `bulk` is `n` `MsgAddAttribute` messages in one transaction (all or nothing): the values are the
 decimal numbers `base`, `base+1`, …, `base+n-1`, everything else is shared — the way to put many
 attributes with one expiration into a history.  `sweep` sets the block time and calls
 `Keeper.DeleteExpiredAttributes(ctx, limit)` directly (result `ok <number deleted>`): the chain
 always passes `MaxExpiredAttributionCount`; a small limit exercises the cap logic of the loop
-(counter, `break`, key order) on a few attributes.
+(counter, `break`, key order) on a few attributes.  `regen` is a genesis round trip of the attribute
+module: `ExportGenesis`, the attribute store emptied, block time set to `t`, `InitGenesis` with the
+export (result `ok <number of exported records>`); the history continues on the re-initialised store.
 A `<name>` is the RAW spelling of the message's name with `_` standing for a space
 (`KYC.vf`, `_kyc.vf`, `kyc_.vf`): `parseName` computes the normalised name (`Normalize`) and the
 `Spelling` flags by running the three Go key functions on the raw string.  `bind` takes the
@@ -153,6 +156,7 @@ inductive Pending
   | op (o : Op)
   | bulk (signer : String) (attrs : List Attribute)
   | sweep (t limit : Nat)
+  | regen (t : Nat)
 
 structure DState where
   model : State := {}
@@ -166,6 +170,7 @@ def pendingVerdict (prev : State) (p : Pending) (acc : Bool) (next : State) : St
   match p with
   | .op o => verdict prev o acc next
   | .bulk signer attrs => verdictBulk prev signer attrs acc next
+  | .regen t => verdictGenesis prev t acc next
   | .sweep t limit =>
     -- a sweep with its own limit: leaving expired attributes behind is what the code promises
     -- when (and only when) more than `limit` were expired and `limit` of them are gone
@@ -206,6 +211,13 @@ def stepLine (d : DState) (op : String) (impl : Option String) : DState × Strin
     let s' := deleteExpiredAttributes { d.model with now := t } limit
     ({ d with model := s', pending := some (.sweep t limit, acc) },
       s!"ok {d.model.recs.length - s'.recs.length}", "-")
+  | ["regen", t] =>
+    let acc := match impl with | some i => i.startsWith "ok" | none => false
+    let t := t.toNat?.getD 0
+    match regenesis d.model t with
+    | .ok s' => ({ d with model := s', pending := some (.regen t, acc) },
+        s!"ok {(exportGenesis d.model).length}", "-")
+    | .error e => ({ d with pending := some (.regen t, acc) }, e.toString, "-")
   | _ =>
     match parseOp ws with
     | none => (d, "bad-op", "-")
